@@ -380,6 +380,57 @@ class Hooks(object):
     def force_inline(self, callee, st):
         return False
 
+    def loop_invariants(self, ex, st, fr, head, entry):
+        """interval bounds that integer loop variables have on entry and that one symbolic iteration preserves
+        (candidates: the bounds of the entry value under the path facts; refuted candidates are dropped and the
+        rest re-checked until all survive): facts about the havoc terms"""
+        cands = {}
+        fx = self._facts(st)
+        for l, (before, hvt) in entry.items():
+            ty = hvt[2]
+            if ty not in vg.INT_BITS:
+                continue
+            try:
+                iv = fx.bounds(before)
+            except Exception:
+                continue
+            tlo, thi = trange(ty)
+            if iv.lo > tlo:
+                cands[(l, "ge")] = (hvt, ty, int(iv.lo))
+            if iv.hi < thi:
+                cands[(l, "le")] = (hvt, ty, int(iv.hi))
+        if not cands:
+            return []
+        quiet = QuietHooks(self)
+        def as_fact(h, ty, op, v):
+            return mk("cmp", op, ty, h, mk("const", ty, vg.from_signed(ty, v)))
+        for _ in range(len(cands) + 1):
+            extra = {as_fact(h, ty, op, v): 1 for (l, op), (h, ty, v) in cands.items()}
+            try:
+                edges = ex.iterate_once(st, fr, head, extra, quiet)
+            except (vg.Unsupported, RecursionError):
+                return []
+            bad = set()
+            for known, snap in edges:
+                f2 = Facts(known, self.ptypes)
+                for (l, op), (h, ty, v) in cands.items():
+                    nv = snap.get(l)
+                    if nv is None:
+                        bad.add((l, op)); continue
+                    try:
+                        iv = f2.bounds(nv)
+                    except Exception:
+                        bad.add((l, op)); continue
+                    if (op == "ge" and not iv.lo >= v) or (op == "le" and not iv.hi <= v):
+                        bad.add((l, op))
+            if not bad:
+                break
+            for k in bad:
+                del cands[k]
+            if not cands:
+                return []
+        return [(as_fact(h, ty, op, v), 1) for (l, op), (h, ty, v) in cands.items()]
+
     def on_assert(self, ex, st, fr, t, cond):
         want = t["expected"]
         fx = self._facts(st)
@@ -482,6 +533,18 @@ class Hooks(object):
                 except Exception:
                     pass
         return None
+
+class QuietHooks(object):
+    """decisions of the real hooks, no site recording (used while a loop body is explored for invariants)"""
+    def __init__(self, real):
+        self.real = real
+    def decide(self, ex, st, c):
+        return self.real.decide(ex, st, c)
+    def force_inline(self, callee, st):
+        return self.real.force_inline(callee, st)
+    def on_assert(self, ex, st, fr, t, cond): pass
+    def on_panic(self, ex, st, fr, t, what): pass
+    def on_call(self, ex, st, fr, t, name, callee, args): pass
 
 def analyse(facts, body, linked=None, keep=()):
     """panic sites of one entry point (private helpers inlined)"""
